@@ -32,7 +32,7 @@ func (fc *fnCtx) seqVar(kind string, elemSort string) (string, string) {
 
 func (fc *fnCtx) chanSend(st *state, ch, v Val, cond string, pos token.Pos, ins ssa.Instruction) {
 	b := map[string]Val{"$ch": ch, "$val": v}
-	fc.anchorB(st, "send", ins, b, ch, false, cond)
+	fc.anchorBP(st, "send", ins, b, ch, false, cond, pos)
 	cl := fc.heapVar(st, "ch!closed", "(Array V Bool)")
 	goal := fmt.Sprintf("(not (select %s %s))", cl, ch.T)
 	if cond != "true" {
@@ -54,7 +54,7 @@ func (fc *fnCtx) chanSend(st *state, ch, v Val, cond string, pos token.Pos, ins 
 		nv = fmt.Sprintf("(ite %s %s %s)", cond, nv, cur)
 	}
 	fc.setHeap(st, hv, hs, fmt.Sprintf("(store %s %s %s)", h, ch.T, nv))
-	fc.anchorB(st, "send", ins, b, ch, true, cond)
+	fc.anchorBP(st, "send", ins, b, ch, true, cond, pos)
 }
 
 func (fc *fnCtx) chanRecv(st *state, ch Val, cond string, pos token.Pos, ins ssa.Instruction, blocking bool) (Val, Val) {
@@ -84,8 +84,12 @@ func (fc *fnCtx) chanRecv(st *state, ch Val, cond string, pos token.Pos, ins ssa
 	h := fc.heapVar(st, hv, hs)
 	cur := fmt.Sprintf("(select %s %s)", h, ch.T)
 	fc.setHeap(st, hv, hs, fmt.Sprintf("(store %s %s (ite (and %s %s) %s %s))", h, ch.T, cond, ok.T, appendT("(Slice "+es+")", cur, v.T), cur))
-	b := map[string]Val{"$ch": ch, "$val": v, "$ok": ok}
-	fc.anchorB(st, "recv", ins, b, ch, true, cond)
+	bare := "false"
+	if _, isUn := ins.(*ssa.UnOp); isUn {
+		bare = "true"
+	}
+	b := map[string]Val{"$ch": ch, "$val": v, "$ok": ok, "$bare": {T: bare, S: "Bool"}}
+	fc.anchorBP(st, "recv", ins, b, ch, true, cond, pos)
 	return v, ok
 }
 
@@ -158,6 +162,8 @@ func (fc *fnCtx) execSelect(st *state, i *ssa.Select) {
 			t = fmt.Sprintf("(store %s %s (= %s (- 1)))", t, ch.T, idx)
 		}
 		fc.setHeap(st, "ch!full", "(Array V Bool)", t)
+		// anchors "default": the default branch of this select is taken
+		fc.runAnchors(st, "default", func(string) bool { return true }, 0, map[string]Val{}, false, fmt.Sprintf("(= %s (- 1))", idx), i.Pos())
 	}
 	fc.env[i] = tuple
 }
